@@ -113,7 +113,10 @@ def write_nifti_image(data: Tensor, grid: Grid, path: PathUri) -> None:
     # Reverse order of axes
     dataobj = np.transpose(data.numpy(), axes=tuple(reversed(range(data.ndim))))
     # Convert to NIfTI RAS convention
-    affine = grid.affine().cpu().numpy()
+    D = grid.ndim
+    affine = np.eye(4, dtype=float)
+    affine[:D, :D] = grid.affine().cpu().numpy()
+    affine[:D, 3] = grid.origin().cpu().numpy()
     affine[:2] *= -1
     with StorageObject.from_path(path) as obj:
         local_path = unlink_or_mkdir(obj.path)
